@@ -24,12 +24,13 @@ func drawEpoch(rt *rapid.T) time.Time {
 
 func drawConfig(rt *rapid.T) cbConfig {
 	return cbConfig{
-		expr:        rapid.SampledFrom(simpleConditions).Draw(rt, "condition"),
-		fallback:    drawDuration(rt, "fallback"),
-		recovery:    drawDuration(rt, "recovery"),
-		checkPeriod: drawDuration(rt, "check-period"),
-		fine:        rapid.Bool().Draw(rt, "fine"),
-		sideEffects: rapid.IntRange(0, 3).Draw(rt, "side-effects") == 0,
+		expr:         rapid.SampledFrom(simpleConditions).Draw(rt, "condition"),
+		fallback:     drawDuration(rt, "fallback"),
+		recovery:     drawDuration(rt, "recovery"),
+		checkPeriod:  drawDuration(rt, "check-period"),
+		fine:         rapid.Bool().Draw(rt, "fine"),
+		sideEffects:  rapid.IntRange(0, 3).Draw(rt, "side-effects") == 0,
+		fallbackKind: rapid.IntRange(0, 2).Draw(rt, "fallback-kind"),
 	}
 }
 
@@ -134,7 +135,7 @@ func workload(w *cbWorld, recoveryHeavy bool) {
 		if q.outcome == "" {
 			w.r.Fail("unanswered", "request %d reached neither the handler nor the fallback", q.id)
 		}
-		if q.outcome == "fallback" && q.rec.Status != 503 {
+		if q.outcome == "fallback" && q.rec.Status != w.fallbackStatus {
 			w.r.Fail("fallback-status", "request %d answered by the fallback shows status %d", q.id, q.rec.Status)
 		}
 	}
